@@ -160,6 +160,29 @@ def make_swarm_spec(rng, n_workers, n_watchers):
     return "\n".join(lines) + "\n", bats
 
 
+def make_churn_spec(rng, n_threads):
+    """Long accumulation: one long-lived thread with a non-default mode creates n_threads short-lived threads ONE AFTER
+    THE OTHER, each of which selects a non-default mode and ends without resetting it; after every one of them the
+    long-lived thread asks for its own mode again (and rounds now and then). Per-thread bookkeeping that is only ever
+    incremented - a counter of customised threads in 8 or 16 bits - wraps on the way (n_threads > 65536)."""
+    small = ["round D25:1 0", "round D-205:2 1"]
+    bats = {"bs": small}
+    m0 = rng.choice([x for x in MODES if x != DEFAULT_MODE])
+    kids = {}
+    for i, m in enumerate([x for x in MODES if x != DEFAULT_MODE]):
+        kids["c%d" % i] = ["set:%s" % m]
+    steps = ["get", "set:%s" % m0, "get"]
+    names = list(kids)
+    for i in range(n_threads):
+        steps += ["spawn:%s" % names[i % len(names)], "join", "get"]
+        if i % 4096 == 4095 or 65530 <= i <= 65540 or 250 <= i <= 260:
+            steps.append("run:bs")
+    steps.append("run:bs")
+    scripts = dict(kids)
+    scripts["main0"] = steps
+    return _spec_text(bats, scripts, ["main0"]), bats
+
+
 def _spec_text(bats, scripts, mains):
     lines = []
     for bid, reqs in bats.items():
@@ -347,6 +370,18 @@ def main(tier, seed):
                 account(name, check_log(p.stdout, bats, name), spec)
         except subprocess.TimeoutExpired:
             errors.append("watchdog: %s" % name)
+    # 1a'. long accumulation: 66 000 customised threads come and go one after the other under a long-lived observer
+    binary = B.build("release", ())
+    spec_text, bats = make_churn_spec(rng, 66000 if tier == "quick" else 140000)
+    try:
+        p, spec = run_native(binary, spec_text, wdir, "churn-release", timeout=900)
+        if p.returncode != 0:
+            errors.append("churn-release exited with %d: %s" % (p.returncode, p.stderr[-300:]))
+        else:
+            account("churn-release", check_log(p.stdout, bats, "churn-release"), spec)
+    except subprocess.TimeoutExpired:
+        errors.append("watchdog: churn-release")
+    phase_churn = round(time.time() - t0, 1)
     # 1b. small-state workloads, each in a fresh process
     t_small = time.time()
     binary = B.build("dev", ())
@@ -389,7 +424,7 @@ def main(tier, seed):
                 v["spec"] = spec_path
                 viol.append(v)
     phase_small = round(time.time() - t_small, 1)
-    phase = {"native": round(time.time() - t0, 1), "small_state": phase_small}
+    phase = {"native": round(time.time() - t0, 1), "small_state": phase_small, "native_incl_churn_at": phase_churn}
     # 2. Miri, different scheduler seeds
     n_seeds = 8 if tier == "quick" else 64
     cmd, env = B.miri_cmd(())
